@@ -439,7 +439,43 @@ pub fn c10_blackbox(run: &mut Run, lost: &[Pos]) {
         for i in 0..n {
             let start = if rng.chance(1, 2) { Pos::start() } else { starts[rng.below(starts.len() as u64) as usize].clone() };
             // related games make a missing clear() visible: same start, overlapping positions
-            let hist = if i > 0 && rng.chance(1, 3) { let prev: &History = &hists[i - 1]; rich_history(&prev.start, &mut rng, 200) } else { rich_history(&start, &mut rng, 300) };
+            let hist = if i > 0 && rng.chance(1, 2) {
+                let prev: &History = &hists[i - 1];
+                match rng.below(4) {
+                    // the same command again
+                    0 => prev.clone(),
+                    // the game goes on: the GUI sends the whole move list again with a few more moves
+                    1 | 2 => {
+                        let mut h = prev.clone();
+                        for _ in 0..(1 + rng.below(3)) {
+                            let ms = legal_moves(&h.end);
+                            if ms.is_empty() {
+                                break;
+                            }
+                            let m = crate::workload::choose_move(&mut rng, &h.end, &ms, crate::workload::Policy::Shuffle);
+                            h.moves.push(m);
+                            h.end = apply(&h.end, m);
+                        }
+                        h
+                    }
+                    _ => rich_history(&prev.start, &mut rng, 200),
+                }
+            } else if rng.chance(1, 4) {
+                // a game that has only just begun (no move, one move, two moves)
+                let mut h = History { start: start.clone(), moves: vec![], end: start.clone() };
+                for _ in 0..rng.below(3) {
+                    let ms = legal_moves(&h.end);
+                    if ms.is_empty() {
+                        break;
+                    }
+                    let m = crate::workload::choose_move(&mut rng, &h.end, &ms, crate::workload::Policy::Shuffle);
+                    h.moves.push(m);
+                    h.end = apply(&h.end, m);
+                }
+                h
+            } else {
+                rich_history(&start, &mut rng, 300)
+            };
             s.position(&hist);
             if rng.chance(1, 3) && has_legal_move(&hist.end) {
                 let mut g = s.go("", WATCHDOG);
